@@ -171,24 +171,46 @@ def r2_identity(ctx):
                     const_str(c.func.value).startswith('def {}(') and len(c.args) == 1:
                 names.append((n, c.args[0]))
     rep.floor('C19.R2', 'def headers', len(names), 1)
+    def closure(node, x, seen):
+        reads = set(_attr_reads(x, ex))
+        for nm in [y for y in ast.walk(x) if isinstance(y, ast.Name) and isinstance(y.ctx, ast.Load) and y.id != ex]:
+            for d in rd.at(node, nm.id):
+                if id(d) in seen:
+                    continue
+                seen.add(id(d))
+                v = d.value.value if isinstance(d.value, ast.AugAssign) else d.value
+                if isinstance(v, ast.AST):
+                    reads |= closure(d.node, v, seen)
+                if d.kind == 'aug':
+                    # x += ... keeps what x held before
+                    for d0 in rd.at(d.node, nm.id):
+                        if id(d0) not in seen and isinstance(d0.value, ast.AST):
+                            seen.add(id(d0))
+                            reads |= closure(d0.node, d0.value.value if isinstance(d0.value, ast.AugAssign) else d0.value, seen)
+        return reads
     for (n, e) in names:
-        reads = set()
-        work = [(n, e)]
-        seen = set()
-        while work:
-            node, x = work.pop()
-            reads |= _attr_reads(x, ex)
-            for nm in [y for y in ast.walk(x) if isinstance(y, ast.Name) and isinstance(y.ctx, ast.Load) and y.id != ex]:
-                for d in rd.at(node, nm.id):
-                    if id(d) in seen or not isinstance(d.value, ast.AST):
-                        continue
-                    seen.add(id(d))
-                    work.append((d.node, d.value))
-        uses_unique = 'unique_callname' in reads
-        missing = sorted(comps - reads) if not uses_unique else []
-        rep.ob('C19.R2', ctx.loc(f, e), 'function name <- %s' % sorted(reads), not missing,
-               'the name depends on every component of the doctest identifier %s' % sorted(comps) if not missing else
-               'the generated function name ignores %s: two doctests of one callable (callname:0, callname:1) get the same `def`, the later one shadows the earlier' % missing, anchor=CONV)
+        # one verdict per definition that can reach the header: a component added on some paths only does not make the name unique
+        variants = []
+        if isinstance(e, ast.Name):
+            for d in rd.at(n, e.id):
+                v = d.value.value if isinstance(d.value, ast.AugAssign) else d.value
+                if not isinstance(v, ast.AST):
+                    continue
+                r = closure(d.node, v, {id(d)})
+                if d.kind == 'aug':
+                    for d0 in rd.at(d.node, e.id):
+                        if isinstance(d0.value, ast.AST):
+                            r |= closure(d0.node, d0.value.value if isinstance(d0.value, ast.AugAssign) else d0.value, {id(d), id(d0)})
+                variants.append((d, r))
+        else:
+            variants.append((None, closure(n, e, set())))
+        need(variants, 'C19.R2: the name expression of the def header has no definition')
+        for (d, reads) in variants:
+            uses_unique = 'unique_callname' in reads
+            missing = sorted(comps - reads) if not uses_unique else []
+            rep.ob('C19.R2', ctx.loc(f, d.node.ast if d is not None and hasattr(d.node, 'ast') and d.node.ast is not None else e), 'function name <- %s' % sorted(reads), not missing,
+                   'the name depends on every component of the doctest identifier %s' % sorted(comps) if not missing else
+                   'the generated function name can reach the header without %s (on some path): two doctests (callname:0 / callname:1, or `f:1` and `f_1:0`) get the same `def`, the later one shadows the earlier' % missing, anchor=CONV)
 
 
 def r3_one_entry_per_part(ctx):
@@ -277,6 +299,17 @@ def r4_dropped_lines(ctx):
     bi, cut = graph.region_of_loop(g, ll)
     dom = ctx.dom(g, bi, cut=cut)
     keeps = [(n, c) for n in g.nodes if not n.dup and graph.in_loop_body(n, ll.ast) for c in node_calls(n) if _callee(c) == 'append' and c.args and is_name(c.args[0], line)]
+    # removing from the very list that is being iterated skips the element that follows each removed one
+    inplace = [(n, c) for n in g.nodes if not n.dup and graph.in_loop_body(n, ll.ast) for c in node_calls(n)
+               if _callee(c) in ('remove', 'pop', 'insert', 'clear') and isinstance(c.func, ast.Attribute) and is_attr_of(c.func.value, part, 'exec_lines')]
+    inplace += [(n, n.ast) for n in g.nodes if not n.dup and graph.in_loop_body(n, ll.ast) and n.kind == 'stmt' and isinstance(n.ast, ast.Delete) and
+                any(isinstance(t, ast.Subscript) and is_attr_of(t.value, part, 'exec_lines') for t in n.ast.targets)]
+    for (n, c) in inplace:
+        rep.ob('C19.R4', ctx.loc(f, c), ctx.src(c), False,
+               'the loop iterates %s.exec_lines itself and changes its length inside the body: the line that follows a removed line is never examined, so the second of two '
+               'consecutive star imports survives into the function body' % part, anchor=CONV)
+    if inplace and not keeps:
+        return
     rep.floor('C19.R4', 'keep sites in the line filter', len(keeps), 1)
     keep_nodes = [n for (n, _) in keeps]
     # every path through an iteration that does not keep the line passes the true edge of the star-import test
@@ -406,9 +439,11 @@ VARIANTS = [
     fire('wantless-parts-dropped', 'C19.R3', (RN, "                body_part += '\\n' + want_text\n            body_lines.append(body_part)\n", "                body_part += '\\n' + want_text\n                body_lines.append(body_part)\n")),
     fire('all-imports-dropped', 'C19.R4', (RN, "                    if ' import *' in line:\n                        continue\n", "                    if ' import ' in line:\n                        continue\n")),
     fire('comment-lines-dropped', 'C19.R4', (RN, "                    if ' import *' in line:\n                        continue\n", "                    if ' import *' in line or line.lstrip().startswith('#'):\n                        continue\n")),
+    fire('star-imports-removed-in-place', 'C19.R4', (RN, "                new_exec_lines = []\n", ""), (RN, "                    if ' import *' in line:\n                        continue\n                    new_exec_lines.append(line)\n                part.exec_lines = new_exec_lines\n", "                    if ' import *' in line:\n                        part.exec_lines.remove(line)\n")),
     fire('want-not-commented', 'C19.R5', (RN, "                want_text += utils.indent(part.want, '# ')\n", "                want_text += part.want\n")),
     fire('want-never-joined', 'C19.R5', (RN, "                body_part += '\\n' + want_text\n", "                pass\n")),
     fire('indent-first-line-only', 'C19.R6', (US, "    return prefix + text.replace('\\n', '\\n' + prefix)\n", "    return prefix + text\n")),
+    fire('index-suffix-only-when-nonzero', 'C19.R2', ('re', RN, r"(func_name = 'test_' \+ example\.modname\.replace\('\.', '_'\) \+ '_' \+ example\.callname\.replace\('\.', '_'\))[^\n]*\n", r"\1\n        if example.num > 0:\n            func_name += '_' + str(example.num)\n")),
     silent('indent-as-join', (US, "    return prefix + text.replace('\\n', '\\n' + prefix)\n", "    return '\\n'.join(prefix + line for line in text.split('\\n'))\n")),
     silent('name-via-unique-callname', ('re', RN, r"func_name = 'test_' \+ example\.modname\.replace\('\.', '_'\) \+ '_' \+ example\.callname\.replace\('\.', '_'\)[^\n]*\n", "func_name = 'test_' + example.modname.replace('.', '_') + '_' + example.unique_callname.replace('.', '_').replace(':', '_')\n")),
 ]
